@@ -423,13 +423,29 @@ def hunt4_rules(chk, repo):
                                   f"{fn.qualname} always builds a raw-deflate decoder: a part (or body) sent with `Content-Encoding: deflate` in the RFC format (zlib.compress) fails with zlib.error `invalid stored block lengths` and the handler answers 500, while the HTTP-level decoder accepts both spellings of the same bytes")
     chk.expect_count("C09.deflate.sniff", n, 3, "ZLibDecompressor(...) constructions that choose the deflate framing")
     # ---- C09.complete (multipart): a part that ends inside its compressed stream is an error, as for an HTTP body -------------------------------------
-    rd = repo.func(MP, "BodyPartReader.read")
-    trunc = [r for r, _c in K.raises_in(rd) if any(not l.pos and l.text.endswith("_decompressor.eof") for l in PC.units(PC.pc(r, raw=True)))]
-    if trunc:
-        chk.ok("C09.complete", trunc[0], "BodyPartReader.read(decode=True): a decompressor that has not reached the end of its stream when the part ends is reported (truncated part)")
-    else:
-        chk.violation("C09.complete", rd, "return decoded_data", "if self._decompressor is not None and not self._decompressor.eof: raise ValueError(...)",
-                      "a multipart part with `Content-Encoding: gzip` whose compressed stream is cut short (boundary framing intact) is returned as a complete body by read(decode=True) / text() / json() / form(): 34618 of 90000 bytes, no error, the handler answers 200 - the same bytes as an HTTP-level gzip body get 400")
+    # (restated after the fifth hunt, F264 was repaired for read(decode=True) only: every decoder of the part - the synchronous decode(), the
+    # chunk-wise decode_iter() that read(), BodyPartReaderPayload.write() and the documented read_chunk() loop use - reports a stream that has
+    # not reached its end when the part has)
+    bp = repo.cls(MP, "BodyPartReader")
+    ndec = 0
+    for name, fn in bp.methods.items():
+        feeds = [c for c in prog.calls_in(fn.node) if isinstance(c.func, ast.Attribute) and c.func.attr in ("decompress", "decompress_sync")]
+        if not feeds:
+            continue
+        ndec += 1
+        recv = {norm.raw(c.func.value) for c in feeds}
+        def raises_truncated(f, depth=0):
+            for r, _c in K.raises_in(f):
+                if any(not l.pos and l.text.endswith(".eof") for l in PC.units(PC.pc(r, raw=True))):
+                    return r
+            return None
+        tr = raises_truncated(fn)
+        if tr is not None:
+            chk.ok("C09.complete", tr, f"BodyPartReader.{name}(): a decompressor ({', '.join(sorted(recv))}) that has not reached the end of its stream when the part ends is reported (truncated part)")
+        else:
+            chk.violation("C09.complete", fn, K.short(feeds[0]), "if <the part is at its end> and not d.eof: raise ValueError(...)",
+                          f"BodyPartReader.{name}() decodes a part without asking the decompressor whether its stream ended: a multipart part with `Content-Encoding: gzip` whose compressed stream is cut short (boundary framing intact) is returned as a complete body - by read(decode=True) / text() / json() / form(), by decode(await part.read()), by a read_chunk()/decode_iter() loop or when the part is forwarded (BodyPartReaderPayload.write()): 34618 of 90000 bytes, no error, the handler answers 200 - the same bytes as an HTTP-level gzip body get 400")
+    chk.expect_count("C09.complete.multipart", ndec, 2, "methods of BodyPartReader that feed a decompressor")
 
 
 def resume_rules(chk, repo):
